@@ -48,7 +48,10 @@ def gen_case(rng, i):
     Mt, c0, lbv, ubv = gen.sys_arrays(s)
     L = int(1 + i % 3)
     N = int(rng.integers(6, 41))
-    if rng.integers(2):
+    default_layers = bool(i % 7 == 5)       # n_layers=None, mask=None: documented default of (receptors - 1) unmasked layers
+    if default_layers:
+        L = m - 1
+    if default_layers or rng.integers(2):
         mask = np.ones((L, n))
         mk = "ones"
     else:
@@ -68,7 +71,8 @@ def gen_case(rng, i):
     s.update({"B": np.clip(B, 0, 100), "L": L, "mask": mask, "maskkind": mk, "equal": bool(rng.integers(2)),
               "subsample": [None, 0.5, "fast"][(i // 3) % 3], "lbp": lbp, "ubp": ubp, "custom": custom,
               "seed": int(rng.integers(1000)), "max_iter": int(rng.integers(4, 16)),
-              "pass_mask": bool(mk == "random" or rng.integers(2))})
+              "pass_mask": bool((mk == "random" or rng.integers(2)) and not default_layers),
+              "default_layers": default_layers})
     return s
 
 
@@ -133,7 +137,10 @@ def chk_case(inp, c):
            "subsample=" + ("None" if sub is None else ("fast" if sub == "fast" else "fraction")),
            "opacity=" + ("custom" if inp["custom"] else "default"))
     est = gen.live_or_new(c, dreye, inp)
-    kw = dict(n_layers=L, mask=(mask.copy() if inp["pass_mask"] else None), lbp=inp["lbp"], ubp=inp["ubp"],
+    if inp.get("default_layers"):
+        c.cell("layers=default(None)")
+    kw = dict(n_layers=(None if inp.get("default_layers") else L), mask=(mask.copy() if inp["pass_mask"] else None),
+              lbp=inp["lbp"], ubp=inp["ubp"],
               max_iter=inp["max_iter"], seed=inp["seed"], subsample=sub, equal_l1norm_constraint=equal)
     runtime.EVENTS.clear()
     out = gen.est_query(c, est, "fit_decomposition", B.copy(), attrs=("X", "P", "B"), registered=bool(inp.get("registered")),
